@@ -166,6 +166,58 @@ type actState struct {
 	inSwitch   bool
 	swRaw      string
 	oldMaster  string
+	// mode machine (Daemon.tla)
+	t0, lq0          int64
+	mfile, mgrsw     bool
+	ed, ad           int64
+	probed           bool
+	locks            []bool
+	released         bool
+	zk               int
+	maint            maintObs
+	maintErr         bool
+}
+
+// maintObs: what an activation read of the maintenance record
+type maintObs struct {
+	St     string `json:"st"` // unread | err | absent | present
+	Paused bool   `json:"paused"`
+	Leave  bool   `json:"leave"`
+	Light  bool   `json:"light"`
+}
+
+// modeRow (Daemon.tla): one activation of a state handler, aggregated over identical content
+type modeRow struct {
+	Kind     string   `json:"kind"` // "mode"
+	Scn      string   `json:"scn"`
+	By       string   `json:"by"`
+	State    string   `json:"state"`
+	Next     string   `json:"next"`
+	Locks    []bool   `json:"locks"`
+	Released bool     `json:"released"`
+	Zk       int      `json:"zk"`
+	Maint    maintObs `json:"maint"`
+	MFile    bool     `json:"mfile"`
+	MgrSw    bool     `json:"mgrsw"`
+	Lq0      int64    `json:"lq0"`
+	Lq1      int64    `json:"lq1"`
+	T0       int64    `json:"t0"`
+	T1       int64    `json:"t1"`
+	Ed       int64    `json:"ed"`
+	Ad       int64    `json:"ad"`
+	Ended    string   `json:"ended"`
+	Owner    string   `json:"owner"` // owner of the manager lock node when the activation ended
+	Count    int      `json:"count"`
+}
+
+func (m *modeRow) key() string {
+	return fmt.Sprint(m.By, m.State, m.Next, m.Locks, m.Released, m.Zk > 0, m.Maint, m.MFile, m.MgrSw, m.Lq0, m.Lq1, m.Ended, m.Owner,
+		func() string {
+			if m.Lq0 >= 0 || m.Lq1 >= 0 {
+				return fmt.Sprint(m.T0, m.T1) // the clock matters only while the quorum-loss timer runs
+			}
+			return ""
+		}())
 }
 
 type vObserver struct {
@@ -178,6 +230,8 @@ type vObserver struct {
 	atts   []attemptRow
 	actRows []actRow
 	tolds   []toldRow
+	modes   []modeRow
+	modeIdx map[string]int
 }
 
 func newObserver(s *vSim, sc *vScenario) *vObserver {
@@ -224,6 +278,7 @@ func (o *vObserver) onEvent(ev *verifsim.TraceEvent, worldLocked bool) {
 		pre.master = o.s.zkMaster()
 	case ev.K == "app" && (ev.Op == "Exit" || ev.Op == "ExitDead"):
 		pre.emerge = o.s.fileExists(ev.By, "emerge")
+		pre.owner = o.s.Z.OwnerClient(vNS + "/" + pathManagerLock)
 	}
 	o.mu.Lock()
 	defer o.mu.Unlock()
@@ -232,12 +287,23 @@ func (o *vObserver) onEvent(ev *verifsim.TraceEvent, worldLocked bool) {
 		switch ev.Op {
 		case "Enter":
 			if ev.Arg == "Manager" || ev.Arg == "Maintenance" || ev.Arg == "Candidate" || ev.Arg == "Lost" || ev.Arg == "FirstRun" {
-				o.acts[ev.By] = &actState{froze: map[string]bool{}, stopped: map[string]bool{}, oldMaster: pre.master, turbo: map[string]bool{}, state: ev.Arg}
+				a := &actState{froze: map[string]bool{}, stopped: map[string]bool{}, oldMaster: pre.master, turbo: map[string]bool{}, state: ev.Arg}
+				a.maint.St = "unread"
+				if n, _ := fmt.Sscanf(ev.Val, "%d %t %t %d %d", &a.lq0, &a.mfile, &a.mgrsw, &a.ed, &a.ad); n == 5 {
+					a.probed = true
+					a.t0 = ev.T
+				}
+				o.acts[ev.By] = a
+			}
+		case "ReleaseLock":
+			if a := o.acts[ev.By]; a != nil && ev.Arg == pathManagerLock {
+				a.released = true
 			}
 		case "AcquireLock":
 			a := o.acts[ev.By]
 			if ev.Arg == pathManagerLock {
 				if a != nil {
+					a.locks = append(a.locks, ev.Res == "true")
 					a.told = ev.Res == "true"
 					if a.told {
 						a.toldTrue++
@@ -269,6 +335,33 @@ func (o *vObserver) onEvent(ev *verifsim.TraceEvent, worldLocked bool) {
 			}
 		case "Exit", "ExitDead":
 			a := o.acts[ev.By]
+			if a != nil && a.probed && ev.Arg == a.state {
+				row := modeRow{Kind: "mode", Scn: o.sc.ID, By: ev.By, State: a.state, Next: ev.Res, Locks: a.locks, Released: a.released,
+					Zk: a.zk, Maint: a.maint, MFile: a.mfile, MgrSw: a.mgrsw, Lq0: a.lq0, Lq1: a.lq0, T0: a.t0, T1: ev.T, Ed: a.ed, Ad: a.ad,
+					Ended: "exit", Owner: pre.owner, Count: 1}
+				if row.Locks == nil {
+					row.Locks = []bool{}
+				}
+				if row.Maint.St == "unread" && a.maintErr {
+					row.Maint.St = "err"
+				}
+				if ev.Op == "ExitDead" {
+					row.Ended = "dead"
+				} else {
+					var mf, ms bool
+					var ed, ad int64
+					fmt.Sscanf(ev.Val, "%d %t %t %d %d", &row.Lq1, &mf, &ms, &ed, &ad)
+				}
+				if o.modeIdx == nil {
+					o.modeIdx = map[string]int{}
+				}
+				if k, ok := o.modeIdx[row.key()]; ok {
+					o.modes[k].Count++
+				} else {
+					o.modeIdx[row.key()] = len(o.modes)
+					o.modes = append(o.modes, row)
+				}
+			}
 			if a != nil && a.nacts > 0 {
 				found := false
 				for k := range o.actRows {
@@ -300,6 +393,25 @@ func (o *vObserver) onEvent(ev *verifsim.TraceEvent, worldLocked bool) {
 		a := o.acts[ev.By]
 		if a == nil {
 			return
+		}
+		switch ev.Op {
+		case "GetData", "Create", "SetData", "Delete", "Children", "Exists":
+			a.zk++
+		}
+		if ev.Op == "GetData" && ev.At == pathMaintenance && (a.maint.St == "unread") {
+			switch {
+			case ev.Res == "ok":
+				var m Maintenance
+				if json.Unmarshal([]byte(ev.Val), &m) == nil {
+					a.maint = maintObs{St: "present", Paused: m.MySyncPaused, Leave: m.ShouldLeave, Light: m.IsLightMode()}
+				} else {
+					a.maintErr = true
+				}
+			case ev.Res == "nonode":
+				a.maint = maintObs{St: "absent"}
+			default:
+				a.maintErr = true
+			}
 		}
 		if (ev.Op == "Create" || ev.Op == "SetData" || ev.Op == "Delete") && vClusterWidePath(ev.At) {
 			a.nacts++
@@ -427,6 +539,7 @@ type vRunResult struct {
 	atts    []attemptRow
 	acts    []actRow
 	tolds   []toldRow
+	modes   []modeRow
 	census  []string
 	trace   []verifsim.TraceEvent
 	final   map[string]hostRow
@@ -603,6 +716,7 @@ func vRun(t *testing.T, sc *vScenario, opt vRunOpts) (res *vRunResult) {
 		res.atts = obs.atts
 		res.acts = obs.actRows
 		res.tolds = obs.tolds
+		res.modes = obs.modes
 		res.final = s.hostsSnapshot(true)
 		res.tree = s.treeSnapshot()
 		for h, in := range s.insts {
